@@ -102,6 +102,12 @@ func (x *Srv) WaitLeader(d time.Duration) error {
 	return errors.New("server did not become leader")
 }
 
+// Stop closes the server but keeps its data directory, so that StartWith(x.Cfg) restarts the same member.
+func (x *Srv) Stop() {
+	x.S.Close()
+	x.Cancel()
+}
+
 func (x *Srv) Close() {
 	x.S.Close()
 	x.Cancel()
